@@ -117,6 +117,17 @@ def coq_makefile():
         run(['coq_makefile', '-f', '_CoqProject', '-o', 'Makefile'], cwd=COQ)
 
 
+def all_targets(prop, attr):
+    """The check's own targets plus everything the checks it embeds (harness/sides.py) need for their case files."""
+    out = list(getattr(prop, attr, None) or [])
+    for sp in getattr(prop, 'side_specs', None) or []:
+        for t in (list(getattr(sp.prop, 'extra_targets', None) or []) + list(getattr(sp.prop, 'model_targets', None) or [])
+                  + all_targets(sp.prop, attr)):
+            if t not in out:
+                out.append(t)
+    return out
+
+
 def coq_make(targets, timeout=1500):
     """make the given .vo targets (relative to coq/).  Returns (ok, log)."""
     coq_makefile()
@@ -487,7 +498,7 @@ def run_check(prop, tier='quick', seed=0, replay=None):
         bad = forbidden_scan()
         if bad:
             broken.append(dict(what='forbidden construct in development: ' + '; '.join(bad[:5]), theorem=None))
-        targets = [f[:-2] + '.vo' for f in prop.props_files] + getattr(prop, 'extra_targets', [])
+        targets = [f[:-2] + '.vo' for f in prop.props_files] + all_targets(prop, 'extra_targets')
         ok, log = coq_make(targets)
         obligations, discharged, assm = 0, 0, {}
         checker_cmd = 'cd /verif/coq && make %s && coqc -R . RP %s' % (' '.join(targets), ' '.join(prop.props_files))
@@ -498,7 +509,7 @@ def run_check(prop, tier='quick', seed=0, replay=None):
             errtxt = log[log.find('Error'):][:600] if 'Error' in log else log[-600:]
             broken.append(dict(what='Coq build failed at %s: %s' % (where, errtxt), theorem=where))
             # can the model still be evaluated?
-            mt = getattr(prop, 'model_targets', None)
+            mt = all_targets(prop, 'model_targets')
             if mt:
                 model_ok, _ = coq_make(mt)
             else:
